@@ -2145,27 +2145,11 @@ class StridedInterval:
         if tok == self.bits:
             return self.copy()
 
-        # the interval can be represented in tok bits
-        if (self.lower_bound & mask) == self.lower_bound and (self.upper_bound & mask) == self.upper_bound:
-            return StridedInterval(
-                bits=tok,
-                stride=self.stride,
-                lower_bound=self.lower_bound,
-                upper_bound=self.upper_bound,
-                uninitialized=self.uninitialized,
-            )
+        if self.is_empty:
+            return StridedInterval.empty(tok)
 
-        # the range between lower bound and upper bound can be represented
-        # in the new SI
-        if 0 <= (self.upper_bound - self.lower_bound) <= mask:
-            lower = self.lower_bound & mask
-            upper = self.upper_bound & mask
-            return StridedInterval(
-                bits=tok, stride=self.stride, lower_bound=lower, upper_bound=upper, uninitialized=self.uninitialized
-            )
-
-        if (self.upper_bound & mask == self.lower_bound & mask) and ((self.upper_bound - self.lower_bound) & mask == 0):
-            # This operation doesn't affect the stride. Stride should be 0 then.
+        if self.stride % (1 << tok) == 0:
+            # All values agree on the low `tok` bits (this includes the integers). Stride should be 0 then.
 
             bound = self.lower_bound & mask
 
@@ -2173,23 +2157,25 @@ class StridedInterval:
                 bits=tok, stride=0, lower_bound=bound, upper_bound=bound, uninitialized=self.uninitialized
             )
 
+        # the range between lower bound and upper bound (on the circle) can be represented
+        # in the new SI
+        if self._modular_sub(self.upper_bound, self.lower_bound, self.bits) <= mask:
+            lower = self.lower_bound & mask
+            upper = self.upper_bound & mask
+            return StridedInterval(
+                bits=tok, stride=self.stride, lower_bound=lower, upper_bound=upper, uninitialized=self.uninitialized
+            )
+
+        # all values agree on the bits below the lowest set bit of the stride (tok > ntz here)
         ntz = StridedInterval._ntz(self.stride)
 
-        if tok > ntz:
-            new_lower = self.lower_bound & ((2**ntz) - 1)
-            stride = 2**ntz
-            ret = self.top(tok, uninitialized=self.uninitialized)
-            ret._stride = stride
-            ret._lower_bound = new_lower
-            k = (ret._upper_bound - ret._lower_bound) // ret._stride
-            ret._upper_bound = ret._stride * k + ret._lower_bound
-        else:
-            ret = StridedInterval(
-                bits=tok,
-                stride=0,
-                lower_bound=(self.lower_bound & ((2**tok) - 1)),
-                upper_bound=(self.upper_bound & ((2**tok) - 1)),
-            )
+        new_lower = self.lower_bound & ((2**ntz) - 1)
+        stride = 2**ntz
+        ret = self.top(tok, uninitialized=self.uninitialized)
+        ret._stride = stride
+        ret._lower_bound = new_lower
+        k = (ret._upper_bound - ret._lower_bound) // ret._stride
+        ret._upper_bound = ret._stride * k + ret._lower_bound
         return ret
 
     def _unrev_cast_low(self, tok: int) -> StridedInterval:
@@ -2250,16 +2236,15 @@ class StridedInterval:
         a._bits += b.bits
 
         new_si = a.lshift(b.bits)
-        new_b = b.copy()
         # Zero-extend b
-        new_b._bits = new_si.bits
+        new_b = b.zero_extend(new_si.bits)
 
         if new_si.is_integer:
             # We can be more precise!
             new_si._bits = new_b.bits
             new_si._stride = new_b.stride
-            new_si._lower_bound = new_si.lower_bound + b.lower_bound
-            new_si._upper_bound = new_si.upper_bound + b.upper_bound
+            new_si._lower_bound = new_si.lower_bound + new_b.lower_bound
+            new_si._upper_bound = new_si.upper_bound + new_b.upper_bound
             return new_si
         return new_si.bitwise_or(new_b)
 
@@ -2367,8 +2352,14 @@ class StridedInterval:
         :param new_length: New length after zero-extension
         :return: A new StridedInterval
         """
-        si = self.copy()
-        si._bits = new_length
+        parts = []
+        # an interval that wraps around in `bits` bits does not wrap around in `new_length` bits
+        for part in self._ssplit():
+            part._bits = new_length
+            parts.append(part)
+        si = StridedInterval.least_upper_bound(*parts)
+        si._name = self._name
+        si.uninitialized = self.uninitialized
 
         return si
 
@@ -2381,43 +2372,26 @@ class StridedInterval:
         :return: A new StridedInterval
         """
 
-        msb = self.extract(self.bits - 1, self.bits - 1).eval(2)
-        if msb == [0]:
-            # All positive numbers
-            return self.zero_extend(new_length)
-        if msb == [1]:
-            # All negative numbers
-            si = self.copy()
-            si._bits = new_length
-            mask = (2**new_length - 1) - (2**self.bits - 1)
-            si._lower_bound |= mask
-            si._upper_bound |= mask
+        if self.is_empty:
+            return StridedInterval.empty(new_length)
 
-        else:
-            # Both positive numbers and negative numbers
-            nums = self._nsplit()
-            # Since there are both positive and negative numbers, there must be two bounds after nsplit
-            # assert len(numbers) == 2
+        # Cut at both poles: each part has one sign and does not wrap around
+        all_resulting_intervals = []
+        mask = (2**new_length - 1) - (2**self.bits - 1)
 
-            all_resulting_intervals = []
+        for n in self._psplit():
+            lb, ub = n.lower_bound, n.upper_bound
+            if StridedInterval._get_msb(lb, n.bits) == 1:
+                # All negative numbers
+                lb |= mask
+                ub |= mask
+            all_resulting_intervals.append(
+                StridedInterval(bits=new_length, stride=n.stride, lower_bound=lb, upper_bound=ub)
+            )
 
-            assert len(nums) > 0
-
-            for n in nums:
-                a, b = n.lower_bound, n.upper_bound
-                mask_a = 0
-                mask_b = 0
-                mask_n = ((1 << (new_length - n.bits)) - 1) << n.bits
-
-                if StridedInterval._get_msb(a, n.bits) == 1:
-                    mask_a = mask_n
-                if StridedInterval._get_msb(b, n.bits) == 1:
-                    mask_b = mask_n
-
-                si_ = StridedInterval(bits=new_length, stride=n.stride, lower_bound=a | mask_a, upper_bound=b | mask_b)
-                all_resulting_intervals.append(si_)
-            si = StridedInterval.least_upper_bound(*all_resulting_intervals).normalize()
-
+        si = StridedInterval.least_upper_bound(*all_resulting_intervals).normalize()
+        if len(all_resulting_intervals) == 1:
+            si._name = self._name
         si.uninitialized = self.uninitialized
         return si
 
